@@ -83,8 +83,10 @@ def judge1d(ctx, m, kind, args):
             n1 = int(prop)
             d1, d2 = d[:n1], d[n1:]
             u1 = (np.max(d1) - np.min(d1)) / np.mean(d1); u2 = (np.max(d2) - np.min(d2)) / np.mean(d2)
-            ctx.close("zones-uniform", max(u1, u2), 1e-11, "refinedmesh/zones-not-uniform", {"n1": n1, "spread1": u1, "spread2": u2}, cls="refined:integral-proportion")
-            ctx.close("zone-ratio", abs(np.mean(d2) / np.mean(d1) / ratio - 1), 1e-11, "refinedmesh/cell-size-ratio-not-the-requested-ratio",
+            # face positions carry a round-off of ulp(x): relative to the smallest cell that is eps*max|x|/dx_min (1e-9 for ratios of 1e6)
+            rtol = 1e-11 + 8 * EPS * float(np.max(np.abs(xf))) / float(np.min(d))
+            ctx.close("zones-uniform", max(u1, u2), rtol, "refinedmesh/zones-not-uniform", {"n1": n1, "spread1": u1, "spread2": u2}, cls="refined:integral-proportion")
+            ctx.close("zone-ratio", abs(np.mean(d2) / np.mean(d1) / ratio - 1), rtol, "refinedmesh/cell-size-ratio-not-the-requested-ratio",
                       {"requested": ratio, "got": float(np.mean(d2) / np.mean(d1)), "n1": n1, "ncell": nc, "a": a, "b": b}, cls="refined:integral-proportion")
         else:
             ctx.ev("refined:other-proportion")
